@@ -8,6 +8,7 @@ import (
 	"encoding/binary"
 	"fmt"
 	"hash/crc32"
+	mrand "math/rand"
 	"os"
 	"path/filepath"
 	"strconv"
@@ -577,6 +578,40 @@ func genOption(c *Ctx) Case {
 	return Case{"op": "option", "class": fmt.Sprintf("built/%dnodes", len(nodes)), "attrs": int64(c.Rng.Uint32()), "len": int64(c.Rng.Intn(65536)), "desc": hx([]byte(desc)), "nodes": ns, "want_nodes": ws}
 }
 
+// genBoundaryOption: load options whose description and whose file-path names BEGIN with a character that sits at
+// a boundary of the UTF-16 code space - the property says "arbitrary descriptions", and a decoder treats the first
+// code unit of a string differently from the others far more easily than it treats one value differently from
+// another: U+FEFF and U+FFFE (the code units a byte order mark consists of), U+FFFD (what decoders substitute),
+// U+FFFF, the two ends of the surrogate gap, the first and last non-BMP characters, and code units with a zero
+// low / high byte. The same characters also occur later in the string, where they must decode the same way.
+var leadRunes = []rune{0xfeff, 0xfffe, 0xfffd, 0xffff, 0xd7ff, 0xe000, 0x10000, 0x10ffff, 0x100, 0xff, 0x1}
+
+func genBoundaryOption(c *Ctx, i int) Case {
+	g := genOption(c)
+	lead := string(leadRunes[i%len(leadRunes)])
+	other := string(leadRunes[(i/len(leadRunes)+1)%len(leadRunes)])
+	tails := []string{"", "x", "Boot Manager", lead, "a" + lead + "b" + other, other + lead}
+	k := i / len(leadRunes)
+	desc := lead + tails[k%len(tails)]
+	names := []string{lead, lead + "\\EFI\\BOOT\\BOOTX64.EFI", lead + other + ".efi", "\\EFI\\" + lead + "\\" + lead + ".efi"}
+	name := names[(k/len(tails))%len(names)]
+	l := 4 + len(specUtf16(name))
+	node := fmt.Sprintf("file:0404%02x%02x:%s", l&255, l>>8, hx([]byte(name)))
+	wnode := node + ":text=" + hx([]byte("File("+name+")"))
+	ns, ws := g.S("nodes"), g.S("want_nodes")
+	switch {
+	case ns == "-" || ns == "":
+		ns, ws = node, wnode
+	case k%2 == 0:
+		ns, ws = node+"|"+ns, wnode+"|"+ws
+	default:
+		ns, ws = ns+"|"+node, ws+"|"+wnode
+	}
+	g["class"] = fmt.Sprintf("boundary-first/U+%04X", leadRunes[i%len(leadRunes)])
+	g["desc"], g["nodes"], g["want_nodes"] = hx([]byte(desc)), ns, ws
+	return g
+}
+
 func c18Gen(c *Ctx) {
 	// all 65536 boot numbers, exhaustively
 	for n := 0; n < 65536; n++ {
@@ -629,6 +664,12 @@ func c18Gen(c *Ctx) {
 	for i := 0; i < c.N(500, 20000) && c.NFailures() < 8; i++ {
 		c18EvalOption(c, genOption(c))
 	}
+	// descriptions and file names that begin with a boundary character of the UTF-16 decoder (generator of its
+	// own, so that the cases before and behind stay what they were)
+	bsub := &Ctx{Rng: mrand.New(mrand.NewSource(c.Seed*86028121 + 17 + int64(c.Shard)*1000003)), Thorough: c.Thorough}
+	for i := 0; i < c.N(6*4*len(leadRunes), 40*len(leadRunes)*24) && c.NFailures() < 8; i++ {
+		c18EvalOption(c, genBoundaryOption(bsub, i))
+	}
 	// sequences of 2..5 load options decoded into ONE EFILoadOption value, every result kept: captured and
 	// generated options in random order (so that a later member has fewer, as many and more nodes than
 	// an earlier one, and the same option occurs twice), some members cut inside their device path list
@@ -670,7 +711,7 @@ func c18Gen(c *Ctx) {
 
 func init() {
 	register("C18", &PropDef{
-		Rule:   "all 65536 boot numbers (exhaustive), each resolved through GetBootEntry on an in-memory store holding the firmware-named variable; boot orders of 0..64 entries; the captured Boot#### variables of tests/data/boot; generated load options of 0..5 nodes over PCI, ACPI, hard-drive (signature types GPT, MBR, none and arbitrary, with an equal or a different partition-format byte; partition numbers incl. 0), file-path (ASCII, non-BMP, empty), firmware-file and USB nodes with arbitrary field values, five fixed descriptions and random descriptions (Latin-1, code units with a zero low byte such as U+0100 and U+4E00, other BMP, non-BMP), encoded by an encoder written in the harness from the UEFI specification (the model's Spec encoder is tied to it byte for byte); every captured option and every second generated one [thorough: every one] is also decoded through the other public entry points - ParseEFILoadOption followed by ParseDevicePath, Efivarfs.GetBootEntry on an in-memory store that holds it as Boot0001, and the package-level efi.GetBootEntry - and must give the fields it was built from (captured: what Unmarshal gives); boot orders of odd length (a trailing single byte behind 0..24 complete entries, 25 orders) must decode to exactly the names of the complete entries on both accessors (F35 repair: Efivarfs.GetBootOrder made up a last entry from the trailing byte); sequences of 2..5 captured and generated load options decoded one after the other into ONE EFILoadOption value (300 sequences [thorough: 6000]; a quarter of the later members cut inside the device path list or down to 0..5 bytes, so that their decode returns an error) with every decoded result kept by the caller (struct copy and FilePath slice): each result must equal the decode of the same bytes into a fresh value and the model's, and every kept result must still read the same after all later decodes, failed ones included. Non-trivial: a non-empty order / an option longer than the minimal one / a sequence of at least two members; distinct = distinct cases.",
+		Rule:   "all 65536 boot numbers (exhaustive), each resolved through GetBootEntry on an in-memory store holding the firmware-named variable; boot orders of 0..64 entries; the captured Boot#### variables of tests/data/boot; generated load options of 0..5 nodes over PCI, ACPI, hard-drive (signature types GPT, MBR, none and arbitrary, with an equal or a different partition-format byte; partition numbers incl. 0), file-path (ASCII, non-BMP, empty), firmware-file and USB nodes with arbitrary field values, five fixed descriptions and random descriptions (Latin-1, code units with a zero low byte such as U+0100 and U+4E00, other BMP, non-BMP), plus 264 options whose description AND one file-path name BEGIN with a boundary character of the UTF-16 code space - U+FEFF and U+FFFE (the code units of a byte order mark: a leading U+FEFF is a character of the string, not a mark), U+FFFD, U+FFFF, U+D7FF, U+E000, U+10000, U+10FFFF, U+0100, U+00FF, U+0001 - alone, followed by text, and with the same characters again later in the string (description and file name must come back exactly, the File(...) text form included), encoded by an encoder written in the harness from the UEFI specification (the model's Spec encoder is tied to it byte for byte); every captured option and every second generated one [thorough: every one] is also decoded through the other public entry points - ParseEFILoadOption followed by ParseDevicePath, Efivarfs.GetBootEntry on an in-memory store that holds it as Boot0001, and the package-level efi.GetBootEntry - and must give the fields it was built from (captured: what Unmarshal gives); boot orders of odd length (a trailing single byte behind 0..24 complete entries, 25 orders) must decode to exactly the names of the complete entries on both accessors (F35 repair: Efivarfs.GetBootOrder made up a last entry from the trailing byte); sequences of 2..5 captured and generated load options decoded one after the other into ONE EFILoadOption value (300 sequences [thorough: 6000]; a quarter of the later members cut inside the device path list or down to 0..5 bytes, so that their decode returns an error) with every decoded result kept by the caller (struct copy and FilePath slice): each result must equal the decode of the same bytes into a fresh value and the model's, and every kept result must still read the same after all later decodes, failed ones included. Non-trivial: a non-empty order / an option longer than the minimal one / a sequence of at least two members; distinct = distinct cases.",
 		Assume: []string{"load options handed to the in-process decoder are complete (truncated ones end the process on the unrepaired tree and are C14's domain), except the failing members of the decode sequences, which are cut inside the description / device path list and must come back as an error"},
 		Eval:   c18Eval, Gen: c18Gen,
 	})
